@@ -2,10 +2,10 @@
 # dev helper: run1.sh <pkgpattern> <harness> [extra gosym flags]
 python3 /verif/bin/mkoverlay.py >/dev/null
 pkg=$1; h=$2; shift 2
-/verif/bin/gosym -overlay /verif/out/overlay.json -pkgs "$pkg" -harness "$h" -out /verif/out/dev "$@" 2>&1 | tail -20
+GOSYM_SOLVER=${GOSYM_SOLVER:-z3-new} /verif/bin/gosym -overlay /verif/out/overlay.json -pkgs "$pkg" -harness "$h" -out /verif/out/${RUN1_OUT:-dev} "$@" 2>&1 | tail -20
 python3 - <<'PY'
 import json
-r=json.load(open('/verif/out/dev/result.json'))
+r=json.load(open('/verif/out/'+__import__('os').environ.get('RUN1_OUT','dev')+'/result.json'))
 for h in r['harnesses']:
     print(h['harness'], h['status'], 'paths',h['paths'],'ended',h['paths_ended'],'asserts',h['assert_labels'],'queries',h['queries'])
     for m in (h['inconclusive'] or [])[:6]: print('  INCON:', m[:1800])
